@@ -3,6 +3,7 @@ package c08
 import (
 	"fmt"
 	"strings"
+	"time"
 
 	"perkeep.org/pkg/blob"
 	"perkeep.org/pkg/test"
@@ -65,6 +66,14 @@ func (b *B) ClaimBy(other bool, pn, kind, attr, val string, date int64) string {
 	b.MW.addBlob(ref, "claim", len(tb.Contents))
 	b.MW.insertClaim(MClaim{PN: pn, Kind: kind, Attr: attr, Val: val, Date: date, Other: other})
 	if b.Hit != nil {
+		if date < 1000000000 {
+			b.Hit("time:claim-dated-before-2001")
+		}
+		if t, err := time.Parse(time.RFC3339, val); err == nil && strings.HasPrefix(attr, "date") || attr == "startDate" {
+			if u := t.Unix(); u < 0 || u > 2000000000 {
+				b.Hit("time:date-attribute-outside-1970-2033")
+			}
+		}
 		if other {
 			b.Hit("claim:by-second-signer")
 		}
@@ -111,6 +120,17 @@ func (b *B) File(name, whole string, mtime int64, mime string) string {
 	ref := tb.BlobRef().String()
 	b.do(fmt.Sprintf("file %s %d %s %s %d %s", ref, len(tb.Contents), hx(name), whole, mtime, hx(mime)))
 	b.MW.addBlob(ref, "file", len(tb.Contents))
+	if b.Hit != nil {
+		if mtime < 0 || mtime > 2000000000 {
+			b.Hit("time:file-time-outside-1970-2033")
+		}
+		for _, f := range b.MW.Files {
+			if !f.IsDir && f.WholeRef == whole {
+				b.Hit("file:shares-its-wholeRef-with-another-file")
+				break
+			}
+		}
+	}
 	b.MW.Files = append(b.MW.Files, MFile{Ref: ref, Name: name, Size: int64(size), Mime: mime, Time: mtime, ModTime: 0, WholeRef: whole})
 	return ref
 }
